@@ -1,6 +1,6 @@
 """SYM-1..4 (bookkeeping schema), EFF-3, TS-8 (count getters), API-1 (guard <=> outcome of the
 handle-consuming API), FWD-1 (forwarding trait impls)."""
-from interp import DEAD, LIVE, ALL, counter_read, alloc_root
+from interp import DEAD, LIVE, ALL, counter_read, alloc_root, Ev
 from expr import RCBOX
 from expr import show, mentions, is_const, mk_field, mk_deref, mk_ref, box_part, table_of, MAX
 from rules_ts import add, rem, sub, is_elem_box
@@ -311,9 +311,11 @@ class Purge:
     recorded multiplicity, from every peer listed in its table before its contents are destroyed."""
     id = "SYM"
 
-    def __init__(self, self_box, closures=None):
+    def __init__(self, self_box, closures=None, entry_kind="rc_drop", entry_name="Rc::drop"):
         self.self_box = self_box
         self.closures = closures
+        self.entry_kind = entry_kind
+        self.entry_name = entry_name
         self.elems = set()
 
     def _filter_only_excludes_self(self, closure, E):
@@ -382,7 +384,29 @@ class Purge:
             if need not in got:
                 eng.violate("SYM-3", "purge-incomplete:%s" % KIND_NAMES[need], "a dying object with adoption links does not remove its %s records from a peer named in its table; the peer keeps a record naming freed memory" % KIND_NAMES[need], site, st)
 
+    def on_discard(self, eng, ev, st):
+        return self._discard(eng, ev, st)
+
+    def _discard(self, eng, ev, st):
+        """An object's own records are thrown away (table taken, replaced, cleared or moved out) outside
+        Rc::drop: the mirror records in its peers' tables must be gone first."""
+        b = ev.box
+        if b is None or is_elem_box(b) or self.entry_kind == "rc_drop":
+            return None
+        eng.obl("SYM-3", "discard", ev.b)
+        if st.empty(b) is not True and ("purged", b) not in st.flags:
+            eng.violate("SYM-3", "discard-without-purge:%s" % self.entry_name, "%s discards the adoption records of %s without first removing the mirror records from its peers' tables (and without seeing the table empty): peers keep links naming an object that no longer lists them" % (self.entry_name, show(b)), ev.b, st)
+        return None
+
+    def on_tbl(self, eng, ev, st):
+        if ev.op in ("clear", "drain", "retain") and ev.get("table") is not None and self.entry_kind != "rc_drop":
+            ev2 = Ev("discard", ev.b, ev.si, box=ev.table)
+            return self._discard(eng, ev2, st)
+        return None
+
     def on_moveout(self, eng, ev, st):
+        if ev.get("field") == "links" and self.entry_kind != "rc_drop":
+            return self._discard(eng, ev, st)
         if ev.box == self.self_box and st.strong(ev.box) <= DEAD and st.empty(ev.box) is not True and not is_elem_box(ev.box):
             if ("g_nonempty",) in st.flags and ("purged", self.self_box) not in st.flags:
                 eng.violate("SYM-3", "destroy-without-purge", "an object with adoption links is torn down without first purging itself from its peers' tables", ev.b, st)
